@@ -36,6 +36,7 @@ CATALOGUE = [
     m("vertex-se2-9-digits", VERTEX, '"VERTEX_SE2 {} {} {} {}\\n".format(', '"VERTEX_SE2 {} {:.9g} {:.9g} {:.9g}\\n".format(', ["C13"]),
     m("optimize-strict-decrease-in-loop", GRAPH, "if self._chi2 <= chi2_prev and rel_diff < tol:", "if self._chi2 < chi2_prev and rel_diff < tol:", ["C12"]),
     m("optimize-strict-decrease-after-loop", GRAPH, "ret.converged = self._chi2 <= chi2_prev and rel_diff < tol", "ret.converged = self._chi2 < chi2_prev and rel_diff < tol", ["C12"]),
+    m("optimize-rel-diff-le-in-loop-only", GRAPH, "if self._chi2 <= chi2_prev and rel_diff < tol:", "if self._chi2 <= chi2_prev and rel_diff <= tol:", ["C12"]),
     m("optimize-rel-diff-against-new-chi2", GRAPH, "rel_diff = (chi2_prev - self._chi2) / (chi2_prev + np.finfo(float).eps)", "rel_diff = (chi2_prev - self._chi2) / (self._chi2 + np.finfo(float).eps)", ["C12"], occurrence=0),
     m("optimize-verbose-doubles-tol", GRAPH, "        if verbose:\n            print(\"\\nIteration", "        if verbose:\n            tol = tol * 2\n            print(\"\\nIteration", ["C12"]),
     m("accumulator-chi2-starts-at-1e-9", GRAPH, "        self.chi2 = 0.0\n", "        self.chi2 = 1e-9\n", ["C12"]),
@@ -68,6 +69,8 @@ CATALOGUE = [
     rf("chi2-prev-dead-store", GRAPH, "chi2_prev = -1.0", "chi2_prev = self._chi2", ["C12"]),
     rf("blank-line-test", GRAPH, "if line.strip():", "if line != \"\\n\":", ["C14"]),
     rf("to-matrix-1-minus-2-form", SE3, "[[self[6]**2 + self[3]**2 - self[4]**2 - self[5]**2,", "[[1. - 2. * (self[4]**2 + self[5]**2),", ["C09"]),
-    rf("optimize-rel-diff-le-tol", GRAPH, "if self._chi2 <= chi2_prev and rel_diff < tol:", "if self._chi2 <= chi2_prev and rel_diff <= tol:", ["C12"]),
+    # `<` -> `<=` in BOTH places that apply the stopping test (the loop and the verdict at max_iter): inside the band.  Changing only one of
+    # them makes the two tests disagree exactly at the tolerance -- that variant is a mutant (below), since round 3 of the seeded changes
+    rf("optimize-rel-diff-le-tol", GRAPH, "rel_diff < tol", "rel_diff <= tol", ["C12"], all=True),
     rf("compact-via-slice-of-full", SE2, "    def jacobian_self_oplus_other_wrt_self_compact(self, other):", "    def _unused_helper(self):\n        return None\n\n    def jacobian_self_oplus_other_wrt_self_compact(self, other):", ["C10"]),
 ]
